@@ -117,6 +117,51 @@ Proof.
   cbn [andb]. reflexivity.
 Qed.
 
+(* the same packet followed by k trailing bytes inside the view (Ethernet padding): the library's
+   IP4.Payload() = p[IHL:TotalLen] and the reference decoder both stop at TotalLen *)
+Lemma ip4_frame_decodes_padded tl ttl proto src dst b T k :
+  length src = 4%nat -> length dst = 4%nat -> bytes_ok src -> bytes_ok dst -> bytes_ok b ->
+  ttl < 256 -> proto < 256 -> tl = 20 + N.of_nat (length b) -> tl < 65536 -> (k <= length T)%nat ->
+  let r := mkSlice (ip4_store_checksum (ip4_hdr0 tl ttl proto src dst) ++ b ++ T) (20 + length b + k) in
+  view r = ip4_store_checksum (ip4_hdr0 tl ttl proto src dst) ++ b ++ firstn k T /\
+  ip4_decode_lib r = Ok {| iv_version := 4; iv_ihl := 20; iv_tos := 192; iv_totlen := 20 + length b; iv_id := 0;
+                           iv_flags := 0; iv_ttl := ttl; iv_proto := proto; iv_src := src; iv_dst := dst;
+                           iv_payload := b |} /\
+  ref_ip4 (view r) = Some {| r4_tos := 192; r4_totlen := tl; r4_id := 0; r4_flags := 0;
+                             r4_frag := 0; r4_ttl := ttl; r4_proto := proto; r4_src := src; r4_dst := dst;
+                             r4_options := []; r4_payload := b |}.
+Proof.
+  intros Hs' Hd' Bs Bd Bb Httl Hpr Htl Hsz Hk r. subst r.
+  assert (Hver : verifiesb (ip4_store_checksum (ip4_hdr0 tl ttl proto src dst)) = true).
+  { apply verifiesb_true. apply ip4_header_verifies.
+    - unfold ip4_hdr0. repeat (apply bytes_ok_cons; split; [first [lia | apply hi8_lt | apply lo8_lt]|]).
+      apply bytes_ok_app. split; assumption.
+    - unfold ip4_hdr0. cbn [app length]. rewrite app_length. lia. }
+  do 4 (destr_list src Hs'). destruct src; [|discriminate].
+  do 4 (destr_list dst Hd'). destruct dst; [|discriminate].
+  assert (Etl : N.to_nat tl = (20 + length b)%nat) by lia.
+  unfold ip4_store_checksum, ip4_hdr0 in *. cbn [app set_nth] in *.
+  set (c := ip4_calc_checksum _) in *.
+  assert (Hv : forall h : bytes, firstn (length b + k) (b ++ T) = b ++ firstn k T).
+  { intros _. rewrite firstn_app_2. reflexivity. }
+  split.
+  { unfold view. cbn [arr len Nat.add firstn]. rewrite (Hv []). reflexivity. }
+  split.
+  { unfold ip4_decode_lib, ip4_payload, ip4_is_valid, ip4_version, ip4_ihl, ip4_tos, ip4_totlen, ip4_id, ip4_flags,
+      ip4_ttl, ip4_protocol, ip4_src, ip4_dst, idx, be16_at, sl, cap.
+    run. unfold view; cbn [arr len]; rewrite ?Nat.sub_0_r, ?firstn_app_exact. reflexivity. }
+  unfold view. cbn [arr len Nat.add firstn]. rewrite (Hv []).
+  unfold ref_ip4, take, drop, w16.
+  change (69 / 16 =? 4) with true. change (4 * N.to_nat (69 mod 16))%nat with 20%nat.
+  rewrite !w16_hi_lo by assumption. rewrite Etl.
+  cbn [firstn skipn Nat.sub Nat.add length].
+  match goal with |- context [verifiesb ?l] => replace (verifiesb l) with true by (symmetry; exact Hver) end.
+  rewrite Nat.sub_0_r, firstn_app_exact.
+  repeat match goal with |- context [Nat.leb ?a ?b] =>
+    let H := fresh in destruct (Nat.leb_spec a b) as [H|H]; [clear H|exfalso; rewrite ?app_length in H; lia] end.
+  cbn [andb]. reflexivity.
+Qed.
+
 Definition ip4_expected_view ttl proto src dst (b : bytes) : ip4_view :=
   {| iv_version := 4; iv_ihl := 20; iv_tos := 192; iv_totlen := 20 + length b; iv_id := 0;
      iv_flags := 0; iv_ttl := ttl; iv_proto := proto; iv_src := src; iv_dst := dst; iv_payload := b |}.
